@@ -235,7 +235,9 @@ def buckets(tier):
                          (lambda fam=fam: pairing_cases(tier, first=fam, families=CHEAP_TAIL, max_len=3, min_len=1)),
                          prop_pairing, {'quick': 25, 'thorough': 400}, nontrivial=_nontrivial, classes=_classes,
                          weight=3.0 if fam in ('special', 'unp', 'eigh', 'svd', 'fft') else 1.0))
-    for fam in PG.FAMILIES_FWD_ONLY + ['ones']:
+    # (minimum/maximum of tracer nodes fall through to numpy.minimum on objects, which *selects one operand at recording time*:
+    #  data-dependent control flow, outside the property's domain of straight-line programs)
+    for fam in [f for f in PG.FAMILIES_FWD_ONLY if f != 'minmax'] + ['ones']:
         if fam == 'ones':
             strat = (lambda: pairing_cases(tier, first='buf', families=CHEAP_TAIL, max_len=3, allow_ones=True))
         else:
